@@ -1,5 +1,6 @@
 //@kani target=sudachi/src/dic/lexicon/word_id_table.rs
 //@kani harness=entries_reads_the_record kind=bounded unwind=5 note=24-byte-table,at-most-3-ids,any-offset
+//@kani harness=entries_yields_count_ids kind=bounded unwind=258 note=every-count-byte-0..255,zero-filled-1024-byte-table,offset-0
 // K-WIDT (C04, C03) BOUNDED stand-in: word_id_table.rs entries / WordIdIter::next read, at any alignment, exactly the
 // `cnt` little-endian u32 ids stored after the count byte.  Bound: table of 24 bytes, at most 3 ids.
     #[kani::proof]
@@ -20,4 +21,22 @@
             k += 1;
         }
         assert!(it.next().is_none());
+    }
+
+    /// the number of ids the iterator yields is the count byte, for EVERY count byte (the format allows up to 127 ids per key; a
+    /// length computed in too narrow a type would drop records of 64 or more ids).  Bound: a zero-filled table, record at offset 0.
+    #[kani::proof]
+    #[kani::unwind(258)]
+    fn entries_yields_count_ids() {
+        let mut bytes = [0u8; 1024];
+        let cnt: u8 = kani::any();
+        bytes[0] = cnt;
+        let t = WordIdTable::new(&bytes, 1024, 0);
+        let mut it = t.entries(0);
+        let mut k = 0usize;
+        while k < 256 {
+            if it.next().is_none() { break; }
+            k += 1;
+        }
+        assert!(k == cnt as usize);
     }
